@@ -7,7 +7,7 @@ import random
 
 DUMP_PY = r'''#!/usr/bin/env python3
 import json, os, sys
-data = {"argv": sys.argv[1:], "env": {k: v for k, v in os.environ.items() if k.startswith("SFV_")}}
+data = {"argv": sys.argv[1:], "env": {k: v for k, v in os.environ.items() if k.startswith("SFVT_")}}
 try:
     data["stdin"] = sys.stdin.read()
 except Exception as e:
@@ -190,7 +190,7 @@ def gen_tool(rng: random.Random, d: str, allow: set, strings=None, n_inputs=None
     env = {}
     if "env" in allow and rng.random() < 0.6:
         feats.add("EnvVarRequirement")
-        for k in rng.sample(["SFV_A", "SFV_B", "SFV_C"], rng.randint(1, 3)):
+        for k in rng.sample(["SFVT_A", "SFVT_B", "SFVT_C"], rng.randint(1, 3)):
             if env_mode == "active" and rng.random() < 0.7:
                 env[k] = rng.choice(ENV_ACTIVE)
                 feats.add("env-shell-active")
